@@ -354,7 +354,12 @@ func floatLayers(tier string) []Layer {
 						}
 						f := math.Float64frombits(bits)
 						ex := exactOfFloat(f)
-						for _, p := range precs {
+						ps := precs
+						if f == math.Trunc(f) && math.Abs(f) >= 1 {
+							// integers need no division: also into receivers whose precision attribute is at the top of the range
+							ps = append(append([]uint32{}, precs...), math.MaxUint32, math.MaxUint32-1)
+						}
+						for _, p := range ps {
 							for _, md := range modes {
 								if c.Skip() {
 									continue
@@ -416,10 +421,14 @@ func floatLayers(tier string) []Layer {
 				}
 				for _, x := range xs {
 					ex := exactOfBigFloat(x)
-					for _, p := range []uint32{0, 1, 5, 17, 34, 100, 1000} {
+					h2precs := []uint32{0, 1, 5, 17, 34, 100, 1000}
+					if x.IsInt() {
+						h2precs = append(h2precs, math.MaxUint32, math.MaxUint32-1) // integers need no division
+					}
+					for _, p := range h2precs {
 						for _, md := range []uint8{ToNearestEven, ToZero, AwayFromZero} {
 							for _, pre := range []int{preFresh, preInf, preLonger, preBigDirty} {
-								if fp > 2000 && (p > 34 || p == 1 || p == 5 || md != ToNearestEven || pre != preFresh) {
+								if (fp > 2000 || p > 1000) && ((p > 34 && p <= 1000) || p == 1 || p == 5 || md != ToNearestEven || pre != preFresh) {
 									continue // very long mantissas: the precision-0 rule and two receiver precisions only
 								}
 								if c.Skip() {
@@ -561,6 +570,57 @@ func floatLayers(tier string) []Layer {
 					g := float32(f)
 					if g != 0 && !math.IsInf(float64(g), 0) {
 						testNeighbourhood(c, float64(g), float64(math.Nextafter32(g, float32(math.Inf(1)))), "f32")
+					}
+				}
+			},
+		})
+	}
+	// H9: a float32/float64 value or midpoint plus a tail far below it (up to 400 digits down), in mantissas
+	// that also carry trailing zero words
+	{
+		f32s := []float32{1, 1.5, 3.4028235e38, 1.1754944e-38, 1e-45, 7e-45, 16777216, 0.1}
+		ks := []int64{50, 80, 110, 114, 115, 116, 121, 125, 130, 133, 134, 140, 152, 160, 200, 400}
+		layers = append(layers, Layer{
+			Name:   "H9-far-tails-and-padded-mantissas",
+			Units:  len(f32s),
+			Bounds: fmt.Sprintf("Float32/Float64 of b·(1 ± 10^−k) for b in {f, midpoint(f, next f)} over %d float32 values (and the same as float64 neighbours), k in %v, both signs, the mantissa as is and padded with 2 and 9 trailing zero words", len(f32s), ks),
+			Run: func(c *Ctx, u int) {
+				g := f32s[u]
+				type nb struct {
+					lo, hi float64
+					tag    string
+				}
+				nbs := []nb{{float64(g), float64(math.Nextafter32(g, float32(math.Inf(1)))), "f32"}, {float64(g), math.Nextafter(float64(g), math.Inf(1)), "f64"}}
+				for _, n := range nbs {
+					if math.IsInf(n.hi, 0) {
+						continue
+					}
+					rl, rh := new(big.Rat).SetFloat64(n.lo), new(big.Rat).SetFloat64(n.hi)
+					mid := new(big.Rat).Add(rl, rh)
+					mid.Quo(mid, big.NewRat(2, 1))
+					for bi, b := range []*big.Rat{rl, mid} {
+						for _, k := range ks {
+							for _, sgn := range []int64{1, -1} {
+								if c.Done() {
+									return
+								}
+								eps := new(big.Rat).SetFrac(big.NewInt(sgn), p10(k))
+								r := new(big.Rat).Mul(b, new(big.Rat).Add(big.NewRat(1, 1), eps))
+								for _, neg := range []bool{false, true} {
+									o := valOfRat(r, 0)
+									if o.Form != fFinite {
+										continue
+									}
+									o.Neg, o.V.Neg = neg, neg
+									for _, pad := range []int{0, 2, 9} {
+										xo := *o
+										xo.Words = append(make([]uint64, pad), o.Words...)
+										xo.Prec = uint32(len(xo.Words) * DW)
+										nearestCase(c, &xo, fmt.Sprintf("%s base%d*(1%+de-%d) pad=%d", n.tag, bi, sgn, k, pad))
+									}
+								}
+							}
+						}
 					}
 				}
 			},
